@@ -210,12 +210,16 @@ func checkC10(c *Ctx) {
 	}
 	// accept: every return that can carry bytes (non-nil first result)
 	accept := map[int]bool{}
+	concPos := va.Body.End()
+	if ks := keys(g.callNodes(adtP + ".IsConcrete")); len(ks) > 0 {
+		concPos = g.pos(ks[0])
+	}
 	for _, r := range g.returns() {
 		ret := g.Nodes[r].N.(*ast.ReturnStmt)
 		if len(ret.Results) == 2 && !isNilIdent(ret.Results[0]) {
 			// the `v.v == nil` => "null" early return precedes evaluation and is excluded
 			if call, ok := ast.Unparen(ret.Results[0]).(*ast.CallExpr); ok && calleeName(info, call) == "append" && len(call.Args) == 2 {
-				if s, ok := constString(info, call.Args[1]); ok && s == "null" && g.pos(r) < g.pos(keys(g.callNodes(adtP + ".IsConcrete"))[0]) {
+				if s, ok := constString(info, call.Args[1]); ok && s == "null" && g.pos(r) < concPos && concPos != va.Body.End() {
 					continue
 				}
 			}
